@@ -162,6 +162,39 @@ def special_circuits():
         Line(c, g4, o)
         Line(c, forks[-1], o2)
         yield c, ('special', f'fork-chain-{depth}')
+    # a stem captured through a fan-out branch (flip-flop / output) whose sibling branch is consumed early, followed by a level that is wide
+    # enough to re-use the stem's memory (c_reuse + strip_forks: the captured line must stay pinned through its stem)
+    for capt in ('DFF', 'output'):
+        for width in (4, 6):
+            c = Circuit(f'stemcap_{capt}_{width}')
+            ins = [Node(c, nm, 'input') for nm in ['a', 'b'] + [f'x{k}' for k in range(width)]]
+            for n in ins:
+                c.io_nodes.append(n)
+            outs = [Node(c, f'o{k}', 'output') for k in range(width)]
+            for n in outs:
+                c.io_nodes.append(n)
+            g = Node(c, 'n1', 'AND2')
+            Line(c, ins[0], (g, 0)); Line(c, ins[1], (g, 1))
+            f = Node(c, 'n1f')
+            Line(c, g, f)
+            if capt == 'DFF':
+                q = Node(c, 'q', 'DFF')
+                Line(c, f, (q, 0))
+            else:
+                q = Node(c, 'oq', 'output')
+                c.io_nodes.append(q)
+                Line(c, f, q)
+            inv = Node(c, 'n2', 'INV1')
+            Line(c, f, inv)
+            f2 = Node(c, 'n2f')
+            Line(c, inv, f2)
+            for k in range(width):
+                m = Node(c, f'm{k}', 'OR2')
+                Line(c, f2, (m, 0)); Line(c, ins[2 + k], (m, 1))
+                r = Node(c, f'r{k}', 'INV1')
+                Line(c, m, r)
+                Line(c, r, outs[k])
+            yield c, ('special', f'stem-captured-{capt}-wide{width}')
 
 
 def wide_circuit(n=150, depth=2):
